@@ -42,7 +42,8 @@ CLAIMS = {
                    "BOUNDED (deciding): hierarchical hats of the initial space, random combinations and linear monomials carried as extra output components through adversarial "
                    "refinement histories of all three strategies. PROVED support only: coarsening never below lmin; global trapezoidal weights (standard and modified basis) are "
                    "the exact integrals of the basis functions."),
-    "C05": mixed("PROVED: Integration.evaluate_area moves area value, container total and combined result by the same coefficient*component-integral; process_removed_objects "
+    "C05": mixed("PROVED: the accumulation pass compute_solutions (any number of component grids and sub-areas, extend-split receiver) adds to the combined result exactly "
+                 "the sum over component grids and areas of coefficient*component result, and the same to the container total / the area values; Integration.evaluate_area moves area value, container total and combined result by the same coefficient*component-integral; process_removed_objects "
                  "subtracts each removed area exactly once; RefinementContainer.set_value/set_evaluations keep total == sum over objects (ghost Sum + induction lemma). "
                  "BOUNDED: at every stop of every strategy result == sum coeff*component result recomputed independently, == from-scratch evaluation, unchanged by reevaluate_at_end."),
     "C06": mixed("PROVED: splitting an interval yields two children tiling it at an inner point with shared-point level max+1, inherited outer levels, coarsening max(c-1,0)>=0, "
